@@ -437,6 +437,15 @@ func runC13(c c13Case) vh.Result {
 				mu.Lock()
 				log := strings.Join(connLog, "; ") + " | events: " + strings.Join(evLog, "; ")
 				mu.Unlock()
+				if nc, derr := net.DialTimeout("tcp", addr, time.Second); derr != nil {
+					log += fmt.Sprintf(" | harness dial of %s: %v", addr, derr)
+				} else {
+					log += fmt.Sprintf(" | harness dial of %s: ok (local %s)", addr, nc.LocalAddr())
+					nc.Close()
+				}
+				_, errs, _ := rec.snapshot()
+				log += fmt.Sprintf(" | error callbacks: %v", errs)
+				log += fmt.Sprintf(" | a Resume() by the harness now: %v", cl.Resume())
 				res.Fail("harness-dials-never-arrived", "%s: after %s the client made %d attempts, %d of which never reached the listening server; connections: %s", desc, label, made, lost, log)
 				return res
 			}
